@@ -275,6 +275,52 @@ def run(ctx):
             vf = float(fresh(Stub(torch, {nm: m[1] for nm, m in zip(names, ms)}), epoch=e, n_epochs=n))
             oracle('reused-object', abs(v - vf) <= 1e-6 * max(1.0, abs(vf)), 'duccio-value-depends-on-earlier-calls',
                    {'metrics(strength,cost,target)': ms, 'calls_so_far(epoch,n_epochs; None=defaults)': seq[:j + 1], 'impl': v, 'fresh_object_value': vf})
+    # ---- (d5) ONE regularizer object applied to SEVERAL models (a sweep over seed networks), and a caller that accumulates
+    #      the task loss IN PLACE on the value it got back (`loss = reg(model); loss += task`): every call is the formula of the
+    #      costs of the model it is given, whatever the object was applied to before and whatever was done to earlier results
+    for i in range(30 if ctx.quick else 300):
+        k = ctx.rng.randint(1, 3)
+        names = ['m%d' % j for j in range(k)]
+        tg_s = [(dy(ctx.rng, 0.02, 8, bits=8), dy(ctx.rng, 1, 200)) for _ in range(k)]         # (strength, target)
+        what = ctx.rng.choice(['duccio', 'duccio', 'base'])
+        if what == 'base':
+            names, tg_s = names[:1], tg_s[:1]
+            reg = BaseRegularizer(names[0], float(tg_s[0][0]))
+        else:
+            reg = DUCCIO({nm: torch.tensor(float(t)) for nm, (s, t) in zip(names, tg_s)}, final_strengths=tuple(torch.tensor(float(s)) for s, t in tg_s))
+        e, n = (lambda n_: (ctx.rng.randint(0, n_), n_))(ctx.rng.randint(1, 50))
+        hist = []
+        for j in range(ctx.rng.randint(2, 5)):
+            mode = ctx.rng.choice(['all-met', 'some-above', 'some-above'])
+            costs = [max(Fraction(0), t - dy(ctx.rng, 0, 40)) if mode == 'all-met' or ctx.rng.random() < 0.4 else t + dy(ctx.rng, 0.02, 50) for s, t in tg_s]
+            st = Stub(torch, dict(zip(names, costs)))
+            inplace = ctx.rng.random() < 0.6
+            task = dy(ctx.rng, 0.05, 4)
+            try:
+                r = reg(st) if what == 'base' else reg(st, epoch=e, n_epochs=n)
+                v = float(r)
+                if inplace:
+                    try:
+                        r += float(task)
+                    except RuntimeError:
+                        inplace = False
+                out = None
+            except Exception as ex:
+                v, out = float('nan'), '%s: %s' % (type(ex).__name__, str(ex)[:120])
+            hist.append({'costs': costs, 'caller_adds_in_place': float(task) if inplace else None, 'impl': v})
+            ms = [(s, c, t) for (s, t), c in zip(tg_s, costs)]
+            want = float(tg_s[0][0] * costs[0]) if what == 'base' else None
+            if what == 'duccio':
+                cases.append({'kind': 'shared-object', 'ms': ms, 'e': e, 'n': n, 'impl': v, 'grads': None})
+                fresh = DUCCIO({nm: torch.tensor(float(t)) for nm, (s, t) in zip(names, tg_s)}, final_strengths=tuple(torch.tensor(float(s)) for s, t in tg_s))
+                want = float(fresh(Stub(torch, dict(zip(names, costs))), epoch=e, n_epochs=n))
+            else:
+                basecases.append((tg_s[0][0], costs[0], v))
+            info = {'regularizer': what, 'metrics(strength,target)': tg_s, 'epoch': e, 'n_epochs': n, 'models_so_far(costs, what the caller did with the result, value)': list(hist),
+                    'impl': v, 'value_of_a_fresh_regularizer_on_this_model': want, 'exception': out}
+            oracle('shared-object', out is None and abs(v - want) <= 1e-6 * max(1.0, abs(want)), 'regularizer-value-depends-on-earlier-models-or-callers', info)
+            if what == 'duccio':
+                oracle('shared-object', (v == 0.0) == all(m[1] <= m[2] for m in ms), 'duccio-zero-iff', dict(info, **{'metrics(strength,cost,target)': ms}))
     # ---- (e) real PIT models
     import torch.nn as nn
     from plinio.methods import PIT
@@ -399,6 +445,24 @@ def replay(r):
     info = c.get('case', c)
     print(json.dumps(r, indent=1)[:3000])
     fr = lambda s: Fraction(s) if isinstance(s, str) else Fraction(s)
+    hk = 'models_so_far(costs, what the caller did with the result, value)'
+    if hk in info:
+        tg_s = [(fr(s), fr(t)) for s, t in info['metrics(strength,target)']]
+        names = ['m%d' % j for j in range(len(tg_s))]
+        mk = lambda: (BaseRegularizer(names[0], float(tg_s[0][0])) if info['regularizer'] == 'base' else
+                      DUCCIO({nm: torch.tensor(float(t)) for nm, (s, t) in zip(names, tg_s)}, final_strengths=tuple(torch.tensor(float(s)) for s, t in tg_s)))
+        call = lambda rg, st: rg(st) if info['regularizer'] == 'base' else rg(st, epoch=info['epoch'], n_epochs=info['n_epochs'])
+        reg, bad = mk(), 0
+        for h in info[hk]:
+            costs = [fr(c) for c in h['costs']]
+            r = call(reg, Stub(torch, dict(zip(names, costs))))
+            v = float(r)
+            if h['caller_adds_in_place'] is not None:
+                r += h['caller_adds_in_place']
+            w = float(call(mk(), Stub(torch, dict(zip(names, costs)))))
+            print('costs', [float(c) for c in costs], 'shared object:', v, 'fresh object:', w, '(required: equal)')
+            bad += not abs(v - w) <= 1e-6 * max(1.0, abs(w))
+        return 1 if bad else 0
     if 'task_loss' in info:
         pairs = [(fr(a), fr(b)) for a, b in info['metrics(_,cost,target)']]
         st = Stub(torch, {'m%d' % i: p[0] for i, p in enumerate(pairs)})
